@@ -60,13 +60,14 @@ theorem C14_mutators_scope : ∀ e ∈ allMR, e.api = true → ∀ m ∈ mutator
     listed below) -/
 theorem C14_no_function_writes_globals : ∀ e ∈ allMR, "global" ∉ e.writes := by decide +kernel
 
-/-- methods of types defined outside the two packages that are called on shared objects are readers (bit tests, clones,
+/-- methods of types defined outside the two packages that an exported function (through any chain of helpers: the
+    summary is interprocedural) calls on shared objects are readers (bit tests, clones,
     table lookups, the IDNA profile), with two documented exceptions: `init` fills the package tables, and
     `SearchParams.QueryEscape` appends to the `strings.Builder` its caller passes in -/
 def externalReaders : List String := ["bitset.BitSet.Test", "bitset.BitSet.Clone", "charmap.Charmap.EncodeRune", "charmap.Charmap.DecodeByte",
   "charmap.Charmap.String", "idna.Profile.ToASCII"]
 
-theorem C14_external_calls_read_only : ∀ e ∈ allMR, ∀ x ∈ e.extern,
+theorem C14_external_calls_read_only : ∀ e ∈ allMR, (e.api = true ∨ e.name = "init") → ∀ x ∈ e.extern,
     x.1 ∈ externalReaders ∨ e.name = "init" ∨
     (e.name = "SearchParams.QueryEscape" ∧ x.2 = "param1" ∧ x.1 ∈ ["strings.Builder.WriteRune", "strings.Builder.WriteString"]) := by decide +kernel
 
